@@ -38,6 +38,8 @@ package keeper
 //@ define mcParams(ctx) := row(ctx, "masterchef:types.ParamsKey", "types.Params")
 //@ func (Keeper).CollectGasFees
 //@ decabstract
+//@ modifies bank-balances, module:amm, module:accountedpool, module:masterchef, module:perpetual, module:tier, module:sdk-distribution
+//@ modular-for (Keeper).UpdateLPRewards
 //@ callers-assumed C13: the end-block step that splits the reported totals over the pools and hands them to the crediting function (UpdateLPRewards) is not under contract (DESIGN A.5)
 //@ assumes mcParams(ctx).RewardPortionForLps >= 0 && mcParams(ctx).RewardPortionForStakers >= 0 && mcParams(ctx).RewardPortionForLps + mcParams(ctx).RewardPortionForStakers <= 1000000000000000000
 //@ forall d Str
@@ -45,6 +47,8 @@ package keeper
 
 //@ func (Keeper).CollectPerpRevenue
 //@ decabstract
+//@ modifies bank-balances, module:amm, module:accountedpool, module:masterchef, module:perpetual, module:tier, module:sdk-distribution
+//@ modular-for (Keeper).UpdateLPRewards
 //@ callers-assumed C13: the end-block step that splits the reported totals over the pools and hands them to the crediting function (UpdateLPRewards) is not under contract (DESIGN A.5)
 //@ assumes mcParams(ctx).RewardPortionForLps >= 0 && mcParams(ctx).RewardPortionForStakers >= 0 && mcParams(ctx).RewardPortionForLps + mcParams(ctx).RewardPortionForStakers <= 1000000000000000000
 //@ forall d Str
@@ -159,6 +163,8 @@ package keeper
 
 //@ func (Keeper).CollectDEXRevenue
 //@ decabstract
+//@ modifies bank-balances, module:amm, module:accountedpool, module:masterchef, module:perpetual, module:tier, module:sdk-distribution
+//@ modular-for (Keeper).UpdateLPRewards
 //@ callers-assumed C13: the end-block step that splits the reported totals over the pools and hands them to the crediting function (UpdateLPRewards) is not under contract (DESIGN A.5)
 //@ forall d Str
 //@ assumes mcParams(ctx).RewardPortionForLps >= 0 && mcParams(ctx).RewardPortionForStakers >= 0 && mcParams(ctx).RewardPortionForLps + mcParams(ctx).RewardPortionForStakers <= 1000000000000000000
@@ -167,3 +173,43 @@ package keeper
 //@ callback-invariant (Keeper).IterateLiquidityPools :: C13/lps-total-so-far-is-kept-by-the-reward-module: err == nil && (bal(ctx, modAddr("masterchef"), d) - old(bal(ctx, modAddr("masterchef"), d))) * 1000000000000000000 >= amt(amountLPsCollected, d)
 //@ callback-exit (Keeper).IterateLiquidityPools :: C13/the-walk-stops-early-only-on-an-error: err != nil
 //@ ensures C13/dex-revenue-reported-for-lps-is-kept-by-the-reward-module: err == nil ==> (bal(ctx, modAddr("masterchef"), d) - old(bal(ctx, modAddr("masterchef"), d))) * 1000000000000000000 + 1000000000000000000 > amt(result1, d)
+
+// ---- C18: the LP-reward half of the end-block function: no panic site is reachable in its own body and in the
+// callees executed in line (the collectors, the TVL and APR helpers and the accumulators are used by their frames:
+// their own panic sites are not covered by this clause) -------------------------------------------------------
+//@ func (Keeper).UpdateLPRewards
+//@ nopanic
+//@ decabstract
+//@ loop-bounded
+//@ unroll 2
+//@ ensures C18/lp-rewards-step-does-not-panic: true
+
+//@ func (Keeper).CalculateProxyTVL
+//@ modular-for (Keeper).UpdateLPRewards
+//@ modifies table:masterchef:types.GetPoolInfoKey
+//@ frame-only
+
+//@ func (Keeper).UpdateAmmPoolAPR
+//@ modular-for (Keeper).UpdateLPRewards
+//@ modifies table:masterchef:types.GetPoolInfoKey
+//@ frame-only
+
+//@ func (Keeper).AddPoolRewardsAccum
+//@ modular-for (Keeper).UpdateLPRewards
+//@ modifies table:masterchef:types.GetPoolRewardsAccumKey
+//@ frame-only
+
+//@ func (Keeper).FirstPoolRewardsAccum
+//@ modular-for (Keeper).UpdateLPRewards
+//@ modifies nothing
+//@ frame-only
+
+//@ func (Keeper).DeletePoolRewardsAccum
+//@ modular-for (Keeper).UpdateLPRewards
+//@ modifies table:masterchef:types.GetPoolRewardsAccumKey
+//@ frame-only
+
+//@ func (Keeper).AddEdenInfo
+//@ modular-for (Keeper).UpdateLPRewards
+//@ modifies table:masterchef:types.GetFeeInfoKey
+//@ frame-only
